@@ -744,7 +744,8 @@ func (d *c05Run) pmtStage(in []byte, pkts []*packet.Packet, s *C05Script) bool {
 		return false
 	}
 	if err == nil && pm != nil {
-		if !d.pmtGetters(pm) {
+		snap := append([]byte(nil), in...)
+		if !d.pmtGetters(pm) || !d.unchanged("pmt getters", in, snap) {
 			return false
 		}
 	}
@@ -831,7 +832,8 @@ func (d *c05Run) scte(in []byte, how string) bool {
 		return true
 	}
 	d.c.Probe("reached_scte35")
-	return d.call("scte35 getters/print/re-encode", func() {
+	snap := append([]byte(nil), in...)
+	return d.call("scte35 getters/print", func() {
 		sc.HasPTS()
 		sc.PTS()
 		sc.Tier()
@@ -904,12 +906,23 @@ func (d *c05Run) scte(in []byte, how string) bool {
 		}
 		_ = sc.String()
 		_ = fmt.Sprintf("%v", sc)
+	}) && d.unchanged("scte35 getters/print", in, snap) && d.call("scte35 re-encode", func() {
 		enc := sc.UpdateData()
 		// what was re-encoded must at least decode again without blowing up
 		if len(enc) > 0 {
 			scte35.NewSCTE35(append([]byte{0}, enc...))
 		}
 	})
+}
+
+// unchanged: querying and printing a decoded object are read-only operations;
+// the buffer the object was decoded from must still hold the caller's bytes.
+func (d *c05Run) unchanged(stage string, buf, snap []byte) bool {
+	if !bytes.Equal(buf, snap) {
+		d.c.Fail("inputs_untouched", "modified_input:"+stage, "decoded-from buffer changed", "unchanged")
+		return false
+	}
+	return true
 }
 
 func (d *c05Run) stateStage(in []byte, state scte35.State) bool {
@@ -961,6 +974,12 @@ func (d *c05Run) ebpBytes(eb []byte) bool {
 		return true
 	}
 	d.c.Probe("reached_ebp")
+	snap := append([]byte(nil), eb...)
+	defer func() {
+		if !d.c.Failed() {
+			d.unchanged("ebp getters/print/re-encode", eb, snap)
+		}
+	}()
 	return d.call("ebp getters/print/re-encode", func() {
 		bp.SegmentFlag()
 		bp.FragmentFlag()
@@ -1009,6 +1028,12 @@ func (d *c05Run) pesBytes(hb []byte) bool {
 		return true
 	}
 	d.c.Probe("reached_pes")
+	snap := append([]byte(nil), hb...)
+	defer func() {
+		if !d.c.Failed() {
+			d.unchanged("pes getters/print", hb, snap)
+		}
+	}()
 	return d.call("pes getters/print", func() {
 		ph.HasPTS()
 		ph.PTS()
